@@ -66,14 +66,14 @@ int main(int argc, char** argv)
   std::string clause = argv[2];
   const Clause* cl = nullptr; for (const Clause& c : registry()) if (clause == c.id) cl = &c;
   if (!cl) { fprintf(stderr, "harness: unknown clause %s\n", clause.c_str()); return 2; }
-  Ctx ctx; std::string out, kf, argstr, pre, kdir; std::vector<std::string> sos;
+  Ctx ctx; std::string out, kf, argstr, pre, kdir, genname; std::vector<std::string> sos;
   for (int i = 3; i < argc; ++i) {
     std::string a = argv[i];
     auto val = [&]() -> std::string { if (i + 1 >= argc) { fprintf(stderr, "missing value for %s\n", a.c_str()); exit(2); } return argv[++i]; };
     if (a == "--tier") ctx.tier = val(); else if (a == "--seed") ctx.seed = strtoull(val().c_str(), 0, 10);
     else if (a == "--worker") ctx.worker = atoi(val().c_str()); else if (a == "--nworkers") ctx.nworkers = atoi(val().c_str());
     else if (a == "--n") ctx.ncases = strtoull(val().c_str(), 0, 10); else if (a == "--out") out = val();
-    else if (a == "--kf") kf = val(); else if (a == "--args") argstr = val(); else if (a == "--pre") pre = val(); else if (a == "--kdir") kdir = val(); else sos.push_back(a);
+    else if (a == "--kf") kf = val(); else if (a == "--args") argstr = val(); else if (a == "--pre") pre = val(); else if (a == "--kdir") kdir = val(); else if (a == "--gen") genname = val(); else sos.push_back(a);
   }
   cut_install_handlers();
   for (const std::string& p : sos) { Cut c; std::string err; if (!cut_load(c, p, err)) { fprintf(stderr, "harness: %s\n", err.c_str()); return 2; } ctx.cuts.push_back(c); }
@@ -103,9 +103,9 @@ int main(int argc, char** argv)
     uint64_t emitted = 0, disagree = 0, trapped = 0, notce = 0, nonfinite = 0;
     auto g = rc::gen::resize(100, rc::gen::container<std::vector<uint64_t>>((std::size_t)cl->nwords, rc::gen::arbitrary<uint64_t>()));
     rc::check("emit", [&]() {
-      std::vector<uint64_t> w = *g; Dec d(w.data(), w.size()); Args a = c08_decode(ctx, d);
+      std::vector<uint64_t> w = *g; Dec d(w.data(), w.size()); Args a = genname == "c07" ? cl->decode(ctx, d) : c08_decode(ctx, d);
       int id = entry_from_key(a[0]); const char* fl = g_sigs[id].flags; if (!strcmp(fl, "RT")) { ++notce; return; }
-      const auto& sig = entry_args()[id]; for (size_t i = 0; i < sig.size(); ++i) if (!c08_arg_ok(id, i, sig[i], a[1 + i])) return;
+      const auto& sig = entry_args()[id]; if (genname != "c07") for (size_t i = 0; i < sig.size(); ++i) if (!c08_arg_ok(id, i, sig[i], a[1 + i])) return;
       bool sq = !strcmp(fl, "CESQ"); bool have = false, bad = false; int64_t ref = 0;
       for (const Cut& c : ctx.cuts) { CallResult r = cut_call(c, id, a[1], a[2], a[3]); if (r.trap) { ++trapped; bad = true; break; } if (sq && !c.abacus) continue; if (!have) { have = true; ref = r.v; } else if (r.v != ref) { ++disagree; bad = true; break; } }
       if (bad || !have) return;
